@@ -100,6 +100,9 @@ def _drive(args):
                 ev.append(e)
         # key check values and key components
         k16 = bytes(r.randrange(256) for _ in range((16, 24)[tid % 2]))
+        if tid % 5 == 1:
+            # a key whose BYTES happen to be hexadecimal-digit characters (the classic test key '0123456789ABCDEF' as text)
+            k16 = (b'0123456789ABCDEF', b'0123456789abcdef01234567', b'FEDCBA9876543210', b'1111222233334444AAAABBBB')[(tid // 5) % 4]
         ln = r.choice((6, 6, 4, 1, 16, r.randrange(1, 17)))
         kind, out_ = call(lambda: keymod.calculate_kcv(k16, ln))
         ev.append(pev('kcv', key=k16, n=ln, kind=kind, out=nib(out_) if kind == 'ok' else ()))
